@@ -35,6 +35,8 @@ pub fn knobs(profile: &str) -> Knobs {
         // many frames / many layers (C01: counts far beyond what the GUI corpus has)
         // canvases up to the format maximum (nothing is rendered; dimension laws, tile lookups, accessors)
         "huge" => Knobs { max_wh: 65535, max_layers: 3, max_frames: 2, max_cel: 3, meta: false, ..base },
+        // cels with more than 65535 pixels (row offsets beyond 16 bits), dragged onto a small canvas by a negative offset
+        "bigcel" => Knobs { max_wh: 5, max_layers: 2, max_frames: 1, meta: false, tiles: false, links: false, groups: false, max_cel: 320, ..base },
         "long" => Knobs { max_wh: 2, max_layers: 3, max_frames: 3000, max_cel: 2, tiles: false, ..base },
         "wide" => Knobs { max_wh: 2, max_layers: 300, max_frames: 2, max_cel: 2, tiles: false, ..base },
         _ => base,
@@ -50,6 +52,15 @@ fn byte_b(r: &mut StdRng) -> u8 {
     }
 }
 fn name(r: &mut StdRng) -> Vec<u8> {
+    if r.gen_bool(0.03) {
+        // longer than 255 bytes, with multi-byte characters at varying alignments
+        let n = r.gen_range(256..400);
+        let mut s = String::new();
+        while s.len() < n {
+            s.push(*['a', 'é', '日', '😀', ' '].choose(r).unwrap());
+        }
+        return s.into_bytes();
+    }
     let pool: [&str; 12] = ["", "a", "b", "Layer 1", "Layer 1", "é", "日本", "😀x", "tag", "a", "ÿ", "long name with spaces 0123456789"];
     pool.choose(r).unwrap().as_bytes().to_vec()
 }
@@ -121,7 +132,16 @@ pub fn gen_sprite(r: &mut StdRng, k: &Knobs) -> Program {
             r.gen_range(1..=k.max_wh)
         }
     };
-    let (w, h) = (dim(r), dim(r));
+    let (mut w, mut h) = (dim(r), dim(r));
+    if k.extremes && k.max_wh <= 1000 && r.gen_bool(0.04) {
+        if r.gen_bool(0.5) {
+            w = r.gen_range(256..300);
+            h = 1;
+        } else {
+            h = r.gen_range(256..300);
+            w = 1;
+        }
+    }
     let nframes = if k.max_frames > 100 { k.max_frames - r.gen_range(0..10) } else { r.gen_range(1..=k.max_frames) };
     let mut udc = 0u32;
     let mut f0: Vec<Chunk> = vec![];
@@ -138,7 +158,7 @@ pub fn gen_sprite(r: &mut StdRng, k: &Knobs) -> Program {
             // new format, contiguous range first..last
             let hi = depth != 8 && r.gen_bool(0.2);
             let first = if hi { r.gen_range(250..400u32) } else if r.gen_bool(0.6) { 0 } else { r.gen_range(0..200u32) };
-            let n = if hi { r.gen_range(1..=12u32) } else { r.gen_range(1..=12u32).min(256 - first) };
+            let n = if hi && r.gen_bool(0.3) { r.gen_range(257..300u32) } else if hi { r.gen_range(1..=12u32) } else { r.gen_range(1..=12u32).min(256 - first) };
             let last = first + n - 1;
             pal_ids = (first..=last).collect();
             let entries = (0..n)
@@ -223,7 +243,7 @@ pub fn gen_sprite(r: &mut StdRng, k: &Knobs) -> Program {
     if use_tiles {
         let n = r.gen_range(1..=2);
         for i in 0..n {
-            let id = if r.gen_bool(0.8) { i as u32 } else { r.gen_range(0..1000u32) * 2 + i as u32 };
+            let id = if r.gen_bool(0.6) { i as u32 } else if r.gen_bool(0.6) { i as u32 + r.gen_range(1..4u32) } else if r.gen_bool(0.5) { r.gen_range(0..1000u32) * 2 + i as u32 } else { *[65536u32, 70001, 0x7fff_ffff, 0xffff_fffe].choose(r).unwrap() + i as u32 };
             if tilesets.iter().any(|t| t.0 == id) {
                 continue;
             }
@@ -310,12 +330,12 @@ pub fn gen_sprite(r: &mut StdRng, k: &Knobs) -> Program {
     }
     // tags
     if k.meta && r.gen_bool(0.6) {
-        let n = r.gen_range(0..4usize);
+        let n = if k.extremes && r.gen_bool(0.03) { r.gen_range(256..270usize) } else { r.gen_range(0..4usize) };
         let tags: Vec<TagP> = (0..n)
             .map(|_| TagP { from: r.gen_range(0..nframes as u16), to: if r.gen_bool(0.8) { r.gen_range(0..nframes as u16) } else { r.gen() }, dir: r.gen_range(0..3), repeat: if r.gen_bool(0.5) { 0 } else { r.gen() }, color: U32S(r.gen()), name: name(r) })
             .collect();
         f0.push(Chunk::Tags(TagsC { tags }));
-        let nud = r.gen_range(0..=n);
+        let nud = if n > 100 { n - r.gen_range(0..3) } else { r.gen_range(0..=n) };
         for _ in 0..nud {
             if r.gen_bool(0.2) {
                 f0.push(Chunk::Mask(IgnC { body: vec![1, 2, 3] }));
@@ -370,9 +390,18 @@ pub fn gen_sprite(r: &mut StdRng, k: &Knobs) -> Program {
                     Some(CelC { layer: l as u16, x, y, opacity: op, ctype: 3, w: mw, h: mh, tiles, store: store(r), ..Default::default() })
                 }
                 1 => {
-                    let cw = r.gen_range(1..=k.max_cel);
-                    let ch = r.gen_range(1..=k.max_cel);
-                    let (x, y, op) = common(r, cw, ch, 1, 1);
+                    let (cw, ch) = if k.max_cel >= 300 {
+                        (r.gen_range(256..=k.max_cel), r.gen_range(257..=k.max_cel))
+                    } else if k.extremes && r.gen_bool(0.03) {
+                        if r.gen_bool(0.5) { (r.gen_range(256..280u16), 1) } else { (1, r.gen_range(256..280u16)) }
+                    } else {
+                        (r.gen_range(1..=k.max_cel), r.gen_range(1..=k.max_cel))
+                    };
+                    let (mut x, mut y, op) = common(r, cw, ch, 1, 1);
+                    if k.max_cel >= 300 {
+                        x = -(cw as i16) + r.gen_range(1..=w.min(4)) as i16;
+                        y = -(ch as i16) + r.gen_range(1..=h.min(4)) as i16;
+                    }
                     let px = (0..(cw as usize * ch as usize)).map(|_| pixel(r, &cx)).collect();
                     Some(CelC { layer: l as u16, x, y, opacity: op, ctype: if r.gen_bool(0.3) { 0 } else { 2 }, w: cw, h: ch, px, store: store(r), ..Default::default() })
                 }
@@ -399,7 +428,8 @@ pub fn gen_sprite(r: &mut StdRng, k: &Knobs) -> Program {
     // slices (any frame; Aseprite writes them in frame 0)
     let mut slices: Vec<Chunk> = vec![];
     if k.meta && r.gen_bool(0.5) {
-        for _ in 0..r.gen_range(1..3) {
+        let nslices = if k.extremes && r.gen_bool(0.03) { r.gen_range(256..262) } else { r.gen_range(1..3) };
+        for _ in 0..nslices {
             let flags = r.gen_range(0..4u32);
             let keys = (0..r.gen_range(0..3))
                 .map(|_| KeyP { frame: u32x(r), x: i32x(r), y: i32x(r), w: u32x(r), h: u32x(r), s9: S9P { cx: i32x(r), cy: i32x(r), cw: u32x(r), ch: u32x(r) }, pivot: PivP { x: i32x(r), y: i32x(r) } })
@@ -626,11 +656,24 @@ pub fn gen_cmd(args: &[String]) {
     let n: usize = arg(args, "--n").and_then(|s| s.parse().ok()).unwrap_or(10);
     let nvar: usize = arg(args, "--variants").and_then(|s| s.parse().ok()).unwrap_or(0);
     let twice = crate::flag(args, "--twice");
+    // --stored: all zlib data as stored deflate blocks (decodable by the TLA+ byte-level decoder)
+    let stored = crate::flag(args, "--stored");
     let mut out = Out::new(arg(args, "--out").unwrap_or("-"));
     let k = knobs(profile);
     let mut r = StdRng::seed_from_u64(seed ^ 0x5eed_0000);
     for i in 0..n {
-        let p = gen_sprite(&mut r, &k);
+        let mut p = gen_sprite(&mut r, &k);
+        if stored {
+            for f in &mut p.frames {
+                for c in &mut f.chunks {
+                    match c {
+                        Chunk::Cel(c) => c.store = "stored".into(),
+                        Chunk::Tileset(t) => t.store = "stored".into(),
+                        _ => {}
+                    }
+                }
+            }
+        }
         let mut c = case(format!("g3-{}-{}-{}", profile, seed, i), &p, "full", json!({"gen": "g3", "profile": profile}));
         c["group"] = json!(format!("g3-{}-{}-{}", profile, seed, i));
         if twice {
